@@ -48,6 +48,9 @@ C(wrap, inst, named, pos, outs) == [k |-> "call", wrap |-> wrap, inst |-> inst, 
 NoWrap == <<"-">>
 
 Base == [
+  \* useq: enumeration values used as initial values (variables, structure elements, defaults) are written with
+  \* their type prefix (lev : LEVEL := LEVEL#LOW) - the same value either way
+  useq |-> FALSE,
   types |-> <<
     \* qual: the positions of the value list that are written with the type prefix (LEVEL#LOW) - the same value either way
     [n |-> "LEVEL", k |-> "enum", vals |-> <<"LOW", "MID", "HIGH">>, def |-> "LOW", qual |-> {}],
@@ -282,6 +285,7 @@ PlantDupEnumValue == \E v \in {"LOW", "HIGH"}, q \in {"plain", "second-qualified
                                 [unit EXCEPT !.types[1].vals = Append(@, v),
                                              !.types[1].qual = @ \cup (IF q = "second-qualified" THEN {n} ELSE IF q = "first-qualified" THEN {first} ELSE {})])
 GrowQualifyEnumValue == unit.types[1].qual = {} /\ Edit(<<"grow:qualify">>, [unit EXCEPT !.types[1].qual = {2}])
+GrowQualifyUses == ~unit.useq /\ Edit(<<"grow:qualifyuse">>, [unit EXCEPT !.useq = TRUE])
 \* an undeclared name in every role of every statement of every POU.  The name is one that exists nowhere ("zz"),
 \* or - scoping - one that IS declared, but not in this POU: a variable of the previous / next POU of the unit,
 \* or a global this POU has no VAR_EXTERNAL declaration for.
@@ -370,13 +374,13 @@ PlantExternNotConst ==
   \/ \E i \in {1, 2} : Edit(<<"plant:ExternOfConstIsConst", unit.pous[i].n, "new">>, AddVarTo(unit, i, V("gk", "VAR_EXTERNAL", "-", "INT", NoInit)))
 
 Grow == (("grow" \in EditKinds) /\ (GrowVar \/ GrowConst \/ GrowStmt \/ GrowWrap \/ GrowEnumValue \/ GrowStructElem \/ GrowType \/ GrowTask
-                                     \/ GrowPositionalCall \/ GrowEmptyCall \/ GrowInOut \/ GrowGlobal \/ GrowPou \/ GrowConfig2 \/ GrowStdNamedType \/ GrowQualifyEnumValue))
+                                     \/ GrowPositionalCall \/ GrowEmptyCall \/ GrowInOut \/ GrowGlobal \/ GrowPou \/ GrowConfig2 \/ GrowStdNamedType \/ GrowQualifyEnumValue \/ GrowQualifyUses))
 Plant == (("plant" \in EditKinds) /\ (PlantDupStructElem \/ PlantBadSubrange \/ PlantDupEnumValue \/ PlantUndeclaredVar \/ PlantBadEnumInit
                                        \/ PlantBadEnumStmt \/ PlantUnknownType \/ PlantStdlib \/ PlantUnknownInstance \/ PlantMix
                                        \/ PlantUnknownInput \/ PlantArity \/ PlantUnknownOutput \/ PlantUndefinedTask \/ PlantConstNoInit
                                        \/ PlantConstFB \/ PlantExternNotConst))
 
-IsGrow(e) == e[1] \in {"grow:qualify", "grow:config2", "grow:stdnamedtype", "grow:inout", "grow:var", "grow:const", "grow:stmt", "grow:wrap", "grow:enumvalue", "grow:structelem", "grow:type", "grow:task",
+IsGrow(e) == e[1] \in {"grow:qualify", "grow:qualifyuse", "grow:config2", "grow:stdnamedtype", "grow:inout", "grow:var", "grow:const", "grow:stmt", "grow:wrap", "grow:enumvalue", "grow:structelem", "grow:type", "grow:task",
                        "grow:positionalcall", "grow:emptycall", "grow:global", "grow:pou"}
 
 Init == unit = Base /\ edits = <<>>
@@ -411,7 +415,7 @@ LabelTargets(e) ==
     [] e[1] = "plant:SubrangeOrdered"       -> {ToString(e[3]), ToString(e[4]), "RNG"}
     [] e[1] = "plant:EnumValuesUnique"      -> {e[3], "LEVEL", "LEVEL#" \o e[3]}
     [] e[1] = "plant:VarDeclared"           -> {e[5]}
-    [] e[1] = "plant:EnumValueDeclared"     -> {"NOPE"}
+    [] e[1] = "plant:EnumValueDeclared"     -> {"NOPE", "LEVEL#NOPE"}
     [] e[1] = "plant:StmtEnumValueDeclared" -> {"NOPE"}
     [] e[1] = "plant:TypeDeclared"          -> {"MISSING"}
     [] e[1] = "plant:StdlibSupported"       -> {e[3]}
